@@ -33,6 +33,7 @@ IDENT_RE = re.compile(r"<([^#<>\s]+)#(\d+)@([^ >]+)")
 TOKEN_RE = re.compile(r"<([^#<>\s]+)#(\d+)@([^ >]+) u=([^ >]*) g=([^ >]*) n=([^ >]*) p=([^ >]*)>")
 
 STORE_KINDS = ("dict", "dictp", "fs", "fs2", "fsx", "fs+d", "dd", "ns", "ns+f", "ns+af")
+CWD_OFFSET = 0.0005   # mtimes of files under the second working directory never equal those of the first
 NAME_POOL = ("a", "sub/d", "b", "c")
 TENANTS = ("t1", "t2")
 NS_VALUES = ("t1", "t2", 0)   # a falsy namespace value is still a namespace
@@ -125,6 +126,8 @@ class World:
             self.store = storage.DictStore(2, parked=cfg.get("parked", False))
         elif kind == "fs":
             self.store = storage.FsStore(1, encoding=cfg.get("encoding", "utf-8"))
+        elif kind == "fsrel":
+            self.store = storage.FsStore(1, encoding=cfg.get("encoding", "utf-8"), relative=True)
         elif kind == "fs2":
             self.store = storage.FsStore(2, encoding=cfg.get("encoding", "utf-8"))
         elif kind == "fsx":
@@ -227,11 +230,23 @@ class World:
                 mtime = old
             else:  # back
                 mtime = old - 10.0
+            if old is None or mt == "adv":
+                if self.other_cwd_class(loc):
+                    mtime = float(int(mtime * 1000)) / 1000 + CWD_OFFSET
             self.store.write(loc, src, mtime)
         self.vers[loc] = ver
         self.content_of[(loc, ver)] = (src, mtime)
         self.wlog.append((self.store.write_seq, loc, ver, mtime))
         return ver
+
+    def other_cwd_class(self, loc: str) -> bool:
+        from sim.storage import CWDS
+        return loc.startswith(CWDS[1] + "/")
+
+    def other_cwd(self, loc: str) -> bool:
+        """``loc`` lies under a working directory that is not the current one."""
+        cwd = getattr(getattr(self.store, "fs", None), "cwd", None)
+        return bool(cwd) and loc.startswith("/simfs/cwd") and not loc.startswith(cwd + "/")
 
     def delete(self, loc: str) -> None:
         self.store.delete(loc)
@@ -496,7 +511,9 @@ class World:
             why = self.stale_permitted(e, lk.live)
             if why is None:
                 sub = "detectable"
-                if (lk.live[0] == "ok" and lk.live[2] != e.loc
+                if self.other_cwd(e.loc):
+                    sub = "cwd_changed"   # a relative search path names another file now
+                elif (lk.live[0] == "ok" and lk.live[2] != e.loc
                         and self.store.mtime(e.loc) == e.mtime):
                     sub = "shadowed"
                 elif lk.live[0] == "err" and self.store.mtime(e.loc) == e.mtime:
@@ -531,6 +548,10 @@ class World:
                     for lk in stale:
                         ver, loc = lk.served
                         src, mtime = world.content_of[(loc, ver)]
+                        if world.other_cwd(loc):
+                            # (permitted-stale entry loaded under another working directory: the
+                            # counterpart finds that source where the relative path points now)
+                            loc = world.store.fs.cwd + loc[len("/simfs/cwdA"):]
                         if world.cfg["store"].startswith("ns"):
                             c.write(loc, src)
                         else:
@@ -891,7 +912,7 @@ def do_par(w: World, op: dict):
                                for (v2, l2) in live_set)
                     if not same:
                         if (all(l2 != loc for (_, l2) in live_set) and live_set
-                                and lk.served_mtime == mt_served):
+                                and lk.served_mtime == mt_served and not w.other_cwd(loc)):
                             # the entry's own file is unchanged but the name now resolves to an
                             # earlier search path / loader: the recorded known finding
                             raise Violation("stale_served", sub="shadowed", lookup=lk.brief(),
@@ -957,7 +978,7 @@ def do_par(w: World, op: dict):
                 structural = (not w.auto_reload) or (not w.store.has_freshness(loc)) or (
                     lk.live[2] == loc and w.content_of.get((loc, ver), (None, None))[1] == lk.live[3])
                 if known_version and lk.live[2] != loc and w.auto_reload and w.store.has_freshness(loc) \
-                        and w.store.mtime(loc) == w.content_of[(loc, ver)][1]:
+                        and w.store.mtime(loc) == w.content_of[(loc, ver)][1] and not w.other_cwd(loc):
                     raise Violation("stale_served", sub="shadowed", lookup=lk.brief(), post_batch=True)
                 if not (known_version and structural):
                     raise Violation("post_batch_wrong_content", lookup=lk.brief())
@@ -1085,6 +1106,14 @@ def execute(plan: dict) -> dict:
                 elif k == "advance":
                     w.clock.advance(op["dt"])
                     w.count("F7_clock")
+                elif k == "chdir":
+                    # F15: the process changes its working directory (daemonising, a task runner):
+                    # a relative search path now names the other tree
+                    from sim.storage import CWDS
+                    fs = getattr(w.store, "fs", None)
+                    if fs is not None and fs.cwd:
+                        fs.cwd = CWDS[1] if fs.cwd == CWDS[0] else CWDS[0]
+                        w.count("F15_chdir")
                 elif k == "envg":
                     # the application changes an environment global between loads
                     e = op.get("e", 0) if len(w.envs) > 1 else 0
@@ -1179,7 +1208,9 @@ def gen_plan(seed: int, tier: str) -> dict:
     cfg["names"] = names
     if store == "fsx":
         names = [n for n in names]
-    n_locs = {"dict": 1, "dictp": 1, "dd": 2, "fs": 1, "fs2": 2, "fsx": 1, "fs+d": 2}.get(store, 3)
+    if store.startswith("fs") and rngn.random() < 0.12:
+        store = cfg["store"] = "fsrel"   # a relative search path and a process that changes directory
+    n_locs = {"dict": 1, "dictp": 1, "dd": 2, "fs": 1, "fs2": 2, "fsx": 1, "fs+d": 2, "fsrel": 1}.get(store, 3)
     allow_shadow = rng.random() < 0.05
     uid = [0]
 
@@ -1348,6 +1379,11 @@ def gen_plan(seed: int, tier: str) -> dict:
                 init.append({"op": "linkify", "name": m["name"], "li": m["li"]})
         if ops and rng2.random() < 0.5:
             ops.insert(rng2.randrange(len(ops)), {"op": "linkify", "name": rng2.choice(names), "li": n_locs - 1})
+    if store == "fsrel":
+        for _ in range(rng2.randint(1, 4)):
+            at = rng2.randrange(len(ops) + 1)
+            f = lr_fields()
+            ops[at:at] = [{"op": "chdir"}, {"op": "lr", "id": nid(), **f}]
     # application code passing its own render context to get_template() / load()
     for op in ops:
         if op["op"] in ("lr", "load") and rng2.random() < 0.08:
